@@ -160,7 +160,9 @@ def applicable(pos, s):
 PAYLOADS = ["'+__e2p_canary__()+'", '"+__e2p_canary__()+"', "\\'+__e2p_canary__()+\\'", "\\\\'+__e2p_canary__()+'", "'),__e2p_canary__(),('",
             "\n__e2p_canary__()\n", "'\n__e2p_canary__()\n'", "{__e2p_canary__()}", "%(__e2p_canary__())s", "'''+__e2p_canary__()+'''",
             "' if __e2p_canary__() else '", "');__e2p_canary__();('", "__e2p_canary__()", "x\\", "\\", "'", "a'b\"c", "}}{{", "{titles}", "{functions}",
-            "' + str(self._arguments) + '", "*'+__e2p_canary__()+'*", "?'+__e2p_canary__()+'?", ">'+__e2p_canary__()+'", "__import__('os').getcwd()"]
+            "' + str(self._arguments) + '", "*'+__e2p_canary__()+'*", "?'+__e2p_canary__()+'?", ">'+__e2p_canary__()+'", "__import__('os').getcwd()",
+            # runs of quotes that would end a triple-quoted text (a docstring, a comment block) and continue as code
+            'a""";__e2p_canary__();"""b', "a''';__e2p_canary__();'''b", '"""', '"""+__e2p_canary__()+"""', 'x\n    __e2p_canary__() #', '#\n__e2p_canary__()']
 
 
 def to_events(cases, results):
